@@ -396,7 +396,10 @@ class ArgumentParser(ParserDeprecations, ActionsContainer, ArgumentLinking, argp
     ):
         cfg = Namespace()
         if defaults:
-            cfg = self.get_defaults(skip_validation=True)
+            try:
+                cfg = self.get_defaults(skip_validation=True)
+            except argparse.ArgumentError as ex:  # problem in a default config file
+                raise TypeError(str(ex)) from ex
 
         if env or (env is None and self._default_env):
             if environ is None:
